@@ -15,7 +15,7 @@ func init() {
 		},
 		Stages: []Stage{
 			{Name: "probes", Dir: "cmd/application", Pkg: ".", Run: "^TestVerifC03Probes$", Drivers: []string{"app"}, Exports: []string{"lib"}, HangIsViol: true, TimeoutQ: 10 * time.Minute, TimeoutT: 60 * time.Minute},
-			{Name: "realtcp", Dir: "cmd/application", Pkg: ".", Run: "^TestVerifC03RealTCP$", Drivers: []string{"app"}, Exports: []string{"lib"}, Netns: true, ThoroughOnly: true, HangIsViol: true, TimeoutT: 10 * time.Minute},
+			{Name: "realtcp", Dir: "cmd/application", Pkg: ".", Run: "^TestVerifC03RealTCP$", Drivers: []string{"app"}, Exports: []string{"lib"}, Netns: true, HangIsViol: true, TimeoutQ: 10 * time.Minute, TimeoutT: 10 * time.Minute},
 		},
 	})
 }
